@@ -208,6 +208,8 @@ type TxPool struct {
 
 	wg sync.WaitGroup // for shutdown sync
 
+	startHead *types.Block // head block the pool was initialised with
+
 	homestead bool
 }
 
@@ -232,7 +234,8 @@ func NewTxPool(config TxPoolConfig, chainconfig *params.ChainConfig, chain block
 	}
 	pool.locals = newAccountSet(pool.signer)
 	pool.priced = newTxPricedList(&pool.all)
-	pool.reset(nil, chain.CurrentBlock().Header())
+	pool.startHead = chain.CurrentBlock()
+	pool.reset(nil, pool.startHead.Header())
 
 	// If local transactions and journaling is enabled, load from disk
 	if !config.NoLocals && config.Journal != "" {
@@ -273,8 +276,9 @@ func (pool *TxPool) loop() {
 	journal := time.NewTicker(pool.config.Rejournal)
 	defer journal.Stop()
 
-	// Track the previous head headers for transaction reorgs
-	head := pool.chain.CurrentBlock()
+	// Track the previous head headers for transaction reorgs. This is the head the pool was reset
+	// to in NewTxPool, not whatever the chain has moved to by the time this goroutine first runs.
+	head := pool.startHead
 
 	// Keep waiting for and reacting to the various events
 	for {
